@@ -4,6 +4,7 @@
 package world
 
 import (
+	"bytes"
 	"encoding/base64"
 	"encoding/json"
 	"fmt"
@@ -74,6 +75,10 @@ type Options struct {
 	// Also enables the state-agreement oracles of other properties (used by C08/C09/C10/C19,
 	// whose statements quantify over "every AOL, DID and PNFT query").
 	Also map[string]bool
+	// Twin runs a second, never-stopping instance that executes every committed block;
+	// Perturb additionally interleaves CheckTx/ReCheck/Simulate/Query calls on it.
+	Twin    bool
+	Perturb bool
 	// Known-finding exclusions that are currently open (by key).
 	Open map[string]bool
 }
@@ -101,10 +106,11 @@ type World struct {
 	Walks []PageReq
 	// ProbeDenoms are extra (possibly non-existing) denom ids used as query arguments.
 	ProbeDenoms []string
-	// block bookkeeping for crash/re-deliver
-	blockRaw [][]byte
-	blockRes []abci.ResponseDeliverTx
-	blockDT  int64
+	// block bookkeeping for crash/re-deliver and the twin
+	blk        *blockRec
+	Twin       *Twin
+	commitDump map[string][]simnet.KV
+	commitHash []byte
 
 	// AcceptedDID lists accepted DID messages (generator aid for replays).
 	AcceptedDID []MsgJSON
@@ -148,6 +154,14 @@ func New(opt Options) (*World, error) {
 		Labels: map[string]int{}, Excluded: map[string]int{}, Obs: map[string]int{}, Keys: DIDKeys()}
 	w.pendDT = 5
 	w.snap()
+	if opt.Twin {
+		if err := w.newTwin(); err != nil {
+			return nil, err
+		}
+	}
+	if w.On("C10") {
+		w.commitDump, w.commitHash = w.allStoreDump(), w.C.App.LastCommitID().Hash
+	}
 	return w, nil
 }
 
@@ -250,9 +264,11 @@ func (w *World) ensureBlock() error {
 	if dt <= 0 {
 		dt = 1
 	}
-	if _, err := w.C.BeginBlock(time.Duration(dt) * time.Second); err != nil {
+	bb, err := w.C.BeginBlock(time.Duration(dt) * time.Second)
+	if err != nil {
 		return &Violation{"C17", err.Error()}
 	}
+	w.blk = &blockRec{dt: dt, beginEv: bb.Events}
 	return nil
 }
 
@@ -265,7 +281,11 @@ func (w *World) Apply(s Step) error {
 	case "commit":
 		return w.applyCommit(s.DT)
 	case "crash":
-		return w.applyCrash()
+		return w.applyCrash(false, false)
+	case "crash_redeliver":
+		return w.applyCrash(true, false)
+	case "crash_endblock":
+		return w.applyCrash(true, true)
 	case "restart":
 		return w.applyRestart()
 	case "export_import":
@@ -327,6 +347,8 @@ func (w *World) applyTx(ts *TxStep) error {
 		return nil
 	}
 	obs.Res = w.C.DeliverTx(raw)
+	w.blk.raw = append(w.blk.raw, raw)
+	w.blk.res = append(w.blk.res, obs.Res)
 	ctx = w.C.DeliverCtx()
 	obs.Post = map[string][]simnet.KV{}
 	for _, st := range customStores {
@@ -444,8 +466,12 @@ func (w *World) applyCommit(dt int64) error {
 	if w.On("C07") {
 		pre = w.preEndBlock()
 	}
-	if _, err := w.C.EndBlock(); err != nil {
-		return &Violation{w.panicProp(), err.Error()}
+	if !w.blk.hasEnd {
+		eb, err := w.C.EndBlock()
+		if err != nil {
+			return &Violation{w.panicProp(), err.Error()}
+		}
+		w.blk.endRes, w.blk.hasEnd = eb, true
 	}
 	if w.On("C07") {
 		if err := w.checkC07(pre); err != nil {
@@ -458,6 +484,14 @@ func (w *World) applyCommit(dt int64) error {
 	w.pendDT = dt
 	w.snap()
 	w.shape("commit")
+	if w.On("C10") {
+		w.commitDump, w.commitHash = w.allStoreDump(), w.C.App.LastCommitID().Hash
+	}
+	if w.Twin != nil {
+		if err := w.twinExecute(w.blk, uint64(dt)*2654435761+uint64(len(w.History))); err != nil {
+			return err
+		}
+	}
 	if w.On("C07") {
 		if err := w.CheckInvariants(); err != nil {
 			return err
@@ -474,19 +508,60 @@ func (w *World) panicProp() string {
 }
 
 // applyCrash abandons the current (uncommitted) block and re-opens the application on
-// the same database. Models roll back to the last commit.
-func (w *World) applyCrash() error {
+// the same database. With redeliver=false the block's transactions are lost and the models
+// roll back to the last commit; with redeliver=true the interrupted block is delivered
+// again (as consensus would do) and must reproduce its results. afterEnd first runs
+// EndBlock so that the stop point is "after EndBlock, before Commit".
+func (w *World) applyCrash(redeliver, afterEnd bool) error {
 	inBlock := w.C.InBlock
+	if inBlock && afterEnd && !w.blk.hasEnd {
+		eb, err := w.C.EndBlock()
+		if err != nil {
+			return &Violation{w.panicProp(), err.Error()}
+		}
+		w.blk.endRes, w.blk.hasEnd = eb, true
+		w.Label("crash after EndBlock")
+	}
+	wantHeight := w.C.Height
 	if err := w.C.Reopen(); err != nil {
 		return &Violation{"C10", "re-open failed: " + err.Error()}
 	}
-	w.AOL, w.DID, w.PNFT, w.Authz = w.committed.aol.Clone(), w.committed.did.Clone(), w.committed.pnft.Clone(), cloneSet(w.committed.authz)
+	if w.On("C10") {
+		if err := w.checkReopened(wantHeight, w.commitHash); err != nil {
+			return err
+		}
+	}
 	if inBlock {
 		w.shape("crash:inblock")
 		w.Label("crash in block")
+		if len(w.blk.raw) > 0 {
+			w.Label("crash after delivered txs")
+		}
 	} else {
 		w.shape("crash:between")
+		w.Label("crash:between")
 	}
+	if inBlock && redeliver {
+		rec := w.blk
+		bb, err := w.C.BeginBlock(time.Duration(rec.dt) * time.Second)
+		if err != nil {
+			return &Violation{"C10", err.Error()}
+		}
+		if d := eventsEqual(rec.beginEv, bb.Events); d != "" {
+			return vio("C10", "re-delivered BeginBlock differs: %s", d)
+		}
+		for i, raw := range rec.raw {
+			res := w.C.DeliverTx(raw)
+			if d := resultsEqual(rec.res[i], res); d != "" {
+				return vio("C10", "tx %d of the interrupted block gives a different result when the block is delivered again: %s", i, d)
+			}
+		}
+		rec.hasEnd = false
+		w.blk = rec
+		w.Label("block re-delivered after crash")
+		return nil
+	}
+	w.AOL, w.DID, w.PNFT, w.Authz = w.committed.aol.Clone(), w.committed.did.Clone(), w.committed.pnft.Clone(), cloneSet(w.committed.authz)
 	return w.checkCommitted()
 }
 
@@ -496,7 +571,7 @@ func (w *World) applyRestart() error {
 			return err
 		}
 	}
-	return w.applyCrash()
+	return w.applyCrash(false, false)
 }
 
 // applyExportImport commits any open block, exports the genesis and continues on a fresh
@@ -526,6 +601,33 @@ func (w *World) applyExportImport() error {
 	}
 	nc.Time = w.C.Time
 	w.C = nc
+	if w.Twin != nil {
+		// the twin exports and imports on its own: two independent InitGenesis runs
+		st2, err := w.Twin.C.Export()
+		if err != nil {
+			return vio(w.Opt.Prop, "twin export failed: %v", err)
+		}
+		g1, _ := sections(st)
+		g2, _ := sections(st2)
+		for _, sct := range customSections {
+			if !bytes.Equal(g1[sct], g2[sct]) {
+				return vio(w.Opt.Prop, "two instances in the same state export different %s sections", sct)
+			}
+		}
+		tc, err := simnet.NewChainFromGenesis(st2, w.Accts)
+		if err != nil {
+			return vio(w.Opt.Prop, "twin import failed: %v", err)
+		}
+		tc.Time = nc.Time
+		w.Twin.C = tc
+		if !bytes.Equal(tc.App.LastCommitID().Hash, nc.App.LastCommitID().Hash) {
+			return vio(w.Opt.Prop, "two instances initialised from exports of the same state have different application hashes")
+		}
+		w.Label("twin re-initialised from its own export")
+	}
+	if w.On("C10") {
+		w.commitDump, w.commitHash = w.allStoreDump(), w.C.App.LastCommitID().Hash
+	}
 	w.shape("export_import")
 	w.Label("export_import")
 	return w.checkCommitted()
